@@ -136,6 +136,9 @@ type Row struct {
 	A     *Acct  `json:"a,omitempty"`
 	C     *Acct  `json:"c,omitempty"`
 	Dom   []Acct `json:"dom,omitempty"` // mergedom / hdr rows
+	RD    []B    `json:"rd,omitempty"`  // rdata rows: VMOutput.ReturnData
+	Kind  int    `json:"kind"`          // rdata rows: ReturnDataKind;  rcode rows: the return code
+	VS    string `json:"vs"`            // rdata / rcode rows: the string observed
 	// observations
 	Res    string `json:"res"`
 	Panic  string `json:"panic,omitempty"`
@@ -192,6 +195,14 @@ func (r *Row) Out() map[string]interface{} {
 				m[k] = v.norm()
 			}
 		}
+	case "rdata":
+		rd := r.RD
+		if rd == nil {
+			rd = []B{}
+		}
+		m["rd"], m["kind"], m["err"], m["v"], m["vs"] = rd, r.Kind, r.Err, r.V, r.VS
+	case "rcode":
+		m["kind"], m["vs"] = r.Kind, r.VS
 	case "hdr":
 		d := r.Dom
 		if d == nil {
@@ -462,6 +473,25 @@ func Exec(r *Row, dom []Acct) {
 			v, err := vmcommon.SafeSubUint64(Unlimbs(r.X), Unlimbs(r.Y))
 			r.Err, r.V = err != nil, Limbs(v, 4)
 		})
+	case "rdata":
+		// VMOutput.GetFirstReturnData: the first return datum seen as a number, a decimal string, a string or a hex string
+		guard(r, func() {
+			out := &vmcommon.VMOutput{}
+			for _, d := range r.RD {
+				out.ReturnData = append(out.ReturnData, d.Bytes())
+			}
+			v, err := out.GetFirstReturnData(vmcommon.ReturnDataKind(r.Kind))
+			r.Err = err != nil
+			switch x := v.(type) {
+			case *big.Int:
+				r.V = FromBytes(x.Bytes())
+			case string:
+				r.VS = x
+				r.V = FromBytes([]byte(x))
+			}
+		})
+	case "rcode":
+		guard(r, func() { r.VS = vmcommon.ReturnCode(r.Kind).String() })
 	case "merge":
 		execMerge(r, dom)
 	default:
@@ -672,6 +702,17 @@ func RandomRow(rnd *rand.Rand, kind string, ids []B) *Row {
 			y = x - 1
 		}
 		r.X, r.Y = Limbs(x, 4), Limbs(y, 4)
+	case "rdata":
+		for n := rnd.Intn(3); n > 0; n-- {
+			b := randBytes(rnd, 3)
+			if rnd.Intn(3) == 0 {
+				b = FromBytes(append([]byte{0}, b.Bytes()...)) // leading zero bytes: the number is the same, the string is not
+			}
+			r.RD = append(r.RD, b)
+		}
+		r.Kind = []int{1, 2, 4, 8, 0, 3, 16}[rnd.Intn(7)]
+	case "rcode":
+		r.Kind = rnd.Intn(16) - 2
 	case "merge":
 		r.Scale = scales[rnd.Intn(len(scales))]
 		pool := []Tr{randTr(rnd), randTr(rnd), randTr(rnd), randTr(rnd)}
